@@ -27,11 +27,13 @@ KINDS = {
                             "script": [("c", [(0, 25)]), ("s", [(0, 35)])]}),
 }
 RELATIONS = ["different_hosts", "same_hosts_diff_cport", "same_client_two_servers", "same_server_443_44330", "v4_v6", "crossed_hosts",
-             "resumed_session", "port_in_two_roles", "tcp_to_quic_port"]
+             "resumed_session", "port_in_two_roles", "tcp_to_quic_port", "v4_and_numerically_equal_v6"]
+# v4_and_numerically_equal_v6: a.b.c.d:p -> e.f.g.h:443 next to [::a.b.c.d]:p -> [::e.f.g.h]:443 (same ports)
 # resumed_session: the second connection resumes the first (same master secret, abbreviated handshake, fresh randoms);
 # port_in_two_roles: the first connection is QUIC to a port outside the configured list and that number is the second
 # connection's client port; tcp_to_quic_port: the second is TCP to that (unconfigured) port and must stay unexported
-CID_RELATIONS = ["distinct", "both_clients_zero", "server_cid_prefix", "client_cid_prefix", "both_zero_zero", "short_id_vs_zero_length"]
+CID_RELATIONS = ["distinct", "both_clients_zero", "server_cid_prefix", "client_cid_prefix", "both_zero_zero", "short_id_vs_zero_length",
+                 "same_client_cid", "same_server_cid", "client_cid_is_others_server_cid"]
 
 
 def describe(tier):
@@ -72,6 +74,8 @@ def make_flows(ka, kb, rel, cidrel, seed):
             e.update(server_ip="192.0.12.80", server_port=44330, client_ip="10.11.0.2")
         if rel == "v4_v6" and idx == 1:
             e.update(v6=True)
+        if rel == "v4_and_numerically_equal_v6" and idx == 1:
+            e.update(v6=True, client_ip="::10.11.0.2", server_ip="::192.0.12.80", client_port=40000 + 17 * 10 + 1)
         if rel == "crossed_hosts" and idx == 1:
             # the two hosts talk to each other in both roles with the same port numbers: A:p -> B:443 and B:p -> A:443
             e.update(client_ip="192.0.12.80", server_ip="10.11.0.2", client_port=40000 + 17 * 10 + 1)
@@ -96,6 +100,12 @@ def make_flows(ka, kb, rel, cidrel, seed):
                 scn["scid_len"] = 0
             elif cidrel == "server_cid_prefix":
                 scn["scid_bytes"] = base if idx == 0 else base + b"\x99\x98\x97\x96"
+            elif cidrel == "same_client_cid":
+                scn["ccid_bytes"] = base                   # two clients that happen to choose the same source connection id
+            elif cidrel == "same_server_cid":
+                scn["scid_bytes"] = base
+            elif cidrel == "client_cid_is_others_server_cid":
+                scn["ccid_bytes" if idx == 0 else "scid_bytes"] = base
             elif cidrel == "client_cid_prefix":
                 scn["ccid_bytes"] = base[:4] if idx == 0 else base[:4] + b"\x55\x66"
         ends = cap.Ends(e["idx"], v6=e.get("v6", False), server_port=e.get("server_port", 443), client_port=e.get("client_port"),
@@ -144,6 +154,8 @@ def cases(tier, seed):
                 if ("ssl3_rc4" in (ka, kb) or "quic_bigpn" in (ka, kb)) and rel not in ("different_hosts", "resumed_session"):
                     continue
                 if rel == "crossed_hosts" and (ka != kb or ka in ("tls13", "quic_chacha", "quic_split")):
+                    continue
+                if rel == "v4_and_numerically_equal_v6" and "quic_split" in (ka, kb):
                     continue
                 if rel == "resumed_session" and (ka != kb or ka not in ("tls12", "tls10", "ssl3_rc4")):
                     continue
